@@ -407,7 +407,7 @@ theorem final_vector (prog : List Stmt) (src : List Char) (t : SymTab) (h : pass
     ∃ lsf stf, prog.foldlM pass1Step (p1Init (some src)) = .ok stf ∧ stf.lines = some (lsf, SourceInfo.ofText src) ∧
       (∀ k, t.lookupLine k = (lsf[k]?).join) ∧
       (∀ k, (∀ x ∈ prog, (SourceInfo.ofText src).getLine x.span.1 ≠ k) → (lsf[k]?).join = none) ∧
-      (∃ m, t.debug = some ⟨m, SourceInfo.ofText src⟩ ∧ Chained m 0) := by
+      (∃ m, t.debug = some ⟨m, SourceInfo.ofText src⟩ ∧ Chained m 0 ∧ ∀ b ∈ m, sortedLE b.2 = true) := by
   generalize hsi : SourceInfo.ofText src = si at *
   have hN : 0 < si.countLines := by rw [← hsi]; simp [SourceInfo.ofText, SourceInfo.countLines]
   unfold pass1 at h
@@ -448,8 +448,11 @@ theorem final_vector (prog : List Stmt) (src : List Char) (t : SymTab) (h : pass
                 have := c7 (by omega)
                 rw [hlen0] at this
                 omega
-      obtain ⟨m, hm1, hm2, _, hm4⟩ := lineMap_new_spec lsf hends (asc_of_ascP _ c1.asc)
-      refine ⟨lsf, stf, rfl, c1.lines, fun k => ?_, fun k hk => ?_, ⟨m, ?_, hm4⟩⟩
+      obtain ⟨m, hm1, hm2, hm3, hm4⟩ := lineMap_new_spec lsf hends (asc_of_ascP _ c1.asc)
+      have hsle : ∀ b ∈ m, sortedLE b.2 = true := by
+        rw [hm3]
+        exact sortedLE_runs lsf 0 none (by simpa using asc_of_ascP _ c1.asc)
+      refine ⟨lsf, stf, rfl, c1.lines, fun k => ?_, fun k hk => ?_, ⟨m, ?_, hm4, hsle⟩⟩
       · rw [← h]
         simp only [SymTab.lookupLine, hm1, Option.getD_some, Option.bind_some]
         exact hm2 k
